@@ -97,6 +97,7 @@ class AllocDict : public Engine {
         std::string cls, key, detail;
         bool fault_fired = false;
         std::string site;
+        size_t leak_total = 0; // at a suspected leak: blocks nobody owns + blocks kept from earlier runs
     };
 
     // internal consistency of the object, and its contents
@@ -144,9 +145,14 @@ class AllocDict : public Engine {
         return true;
     }
 
+    // allow_: blocks the library may keep for itself beyond the dictionary's own (what it kept
+    // before this run plus what the fault-free execution showed; 0 for a library without caches)
+    size_t allow_extra_ = 0, seen_extra_ = 0;
     Res run(const Plan &plan, long fault_op, uint64_t fault_k, bool check, bool honour) {
         Res res;
         alloc::reset_run();
+        size_t allow = allow_extra_;
+        seen_extra_ = 0;
         alloc::set_fill(alloc::Fill::Garbage, plan.seed ^ 0xd1c7);
         varintDict *d = nullptr;
         std::vector<uint64_t> model; // sorted unique contents
@@ -303,7 +309,8 @@ class AllocDict : public Engine {
             stat("op.dict." + op.kind);
             // block accounting: struct + values array, nothing else
             size_t expect = d ? (d->values ? 2 : 1) : 0;
-            if ((checking || k) && alloc::live_count() != expect) {
+            if (alloc::live_count() > expect && alloc::live_count() - expect > seen_extra_) seen_extra_ = alloc::live_count() - expect;
+            if ((checking || k) && (alloc::live_count() < expect || alloc::live_count() - expect > allow)) {
                 std::ostringstream o;
                 o << alloc::live_count() << " live blocks, " << expect << " owned by the dictionary:";
                 for (auto &kv : alloc::live())
@@ -318,8 +325,11 @@ class AllocDict : public Engine {
                 break;
             }
         }
-        if (res.cls.empty() && d) varintDictFree(d);
-        if (res.cls.empty() && alloc::live_count() != 0) {
+        if ((res.cls.empty() || res.cls == "leak") && d) varintDictFree(d); // after a suspected leak the object itself is sound
+        if (res.cls == "leak") res.leak_total = alloc::live_count() + alloc::kept_count();
+        if (res.cls.empty() && alloc::live_count() > seen_extra_) seen_extra_ = alloc::live_count();
+        if (res.cls.empty() && alloc::live_count() > allow) {
+            res.leak_total = alloc::live_count() + alloc::kept_count();
             res.cls = "leak";
             res.key = "op=dict.free";
             res.detail = std::to_string(alloc::live_count()) + " blocks live after Free";
@@ -328,13 +338,28 @@ class AllocDict : public Engine {
         return res;
     }
 
+    // a block nobody owns is a leak only if it accumulates when the same history is repeated
+    Res run_confirmed(const Plan &plan, long fault_op, uint64_t fault_k, bool check, bool honour) {
+        Res r = run(plan, fault_op, fault_k, check, honour);
+        if (r.cls != "leak") return r;
+        Res r2 = run(plan, fault_op, fault_k, check, honour);
+        if (r2.cls == "leak" && r2.leak_total > r.leak_total) return r2;
+        stat("leak_suspicion_not_confirmed_by_repetition");
+        if (r2.cls == "leak") r2 = Res();
+        return r2;
+    }
+
     Outcome execute(const Plan &plan) override {
         Outcome out;
         long target = -1;
         for (size_t i = 0; i < plan.ops.size(); i++)
             if (plan.ops[i].is_all("fail")) target = (long)i;
+        allow_extra_ = 1000; // the fault-free execution shows what the library keeps for itself
         if (target < 0) {
-            Res r = run(plan, -1, 0, true, true);
+            run(plan, -1, 0, true, false);
+            allow_extra_ = seen_extra_;
+            g_log.reset();
+            Res r = run_confirmed(plan, -1, 0, true, true);
             out.cases = 1;
             out.hash = g_log.h;
             if (!r.cls.empty()) {
@@ -346,6 +371,7 @@ class AllocDict : public Engine {
             return out;
         }
         Res b = run(plan, -1, 0, true, false);
+        allow_extra_ = seen_extra_;
         out.cases++;
         if (!b.cls.empty()) {
             stat("baseline-invalid");
@@ -356,7 +382,7 @@ class AllocDict : public Engine {
         }
         for (uint64_t k = 1; k < 1000; k++) {
             ctx_bind((size_t)target, "fail", k);
-            Res r = run(plan, target, k, false, true);
+            Res r = run_confirmed(plan, target, k, false, true);
             out.cases++;
             if (!r.cls.empty() && r.cls != "skip") {
                 out.cls = r.cls;
